@@ -903,3 +903,26 @@ pub fn install_panic_hook() {
 pub fn take_panics() -> Vec<String> {
     PANICS.lock().map(|mut p| std::mem::take(&mut *p)).unwrap_or_default()
 }
+
+
+// ---------------------------------------------------------------------------- logger
+
+struct DiscardLogger;
+
+impl log::Log for DiscardLogger {
+    fn enabled(&self, _: &log::Metadata) -> bool {
+        true
+    }
+    fn log(&self, _: &log::Record) {}
+    fn flush(&self) {}
+}
+
+static LOGGER: DiscardLogger = DiscardLogger;
+
+/// A host application may have a logger installed at any level: with this one every `log!`
+/// macro in txtpp evaluates its arguments (and throws the record away).
+pub fn install_discard_logger() {
+    if log::set_logger(&LOGGER).is_ok() {
+        log::set_max_level(log::LevelFilter::Trace);
+    }
+}
